@@ -272,11 +272,13 @@ def task_precheck(pr, repo):
     def thunk(ex, ctx):
         def at(i, res, term=None, el='C'):
             return record('a%d' % i, A, element=el, res_num=1 + i // 3, chain_id='A', icode=' ', res_name=res, terminal=term)
-        atoms = [at(0, 'ALA'), at(1, 'ALA'), at(2, 'ALA', el='H'), at(3, 'GLY', 'C-'), at(4, 'XYZ'), at(6, 'ASP', 'N+')]
+        # residue 4 (SER) has lost every heavy atom, one of its hydrogen records is left (--keep-protons)
+        atoms = [at(0, 'ALA'), at(1, 'ALA'), at(2, 'ALA', el='H'), at(3, 'GLY', 'C-'), at(4, 'XYZ'), at(6, 'ASP', 'N+'), at(9, 'SER', el='H'),
+                 at(12, 'LYS', el='H'), at(13, 'LYS', el='H')]
         conf = record('conf', None, atoms=atoms)
         try:
             ex.call_function(fi, [{'1A': conf}, ['1A']])
-            ctx.oblige('PC: protein_precheck completes on residues with missing atoms, unknown residues and termini (it only warns)', True)
+            ctx.oblige('PC: protein_precheck completes on residues with missing atoms, residues of which only hydrogens are left, unknown residues and termini (it only warns)', True)
         except PyRaise as e:
             ctx.oblige('PC: protein_precheck raises %s' % e.exc_name, False)
     pr.explore(ex, thunk, 'protein_precheck')
